@@ -53,6 +53,14 @@ Init ==
      /\ \E t \in {<<1, 1, 1>>, <<6, 1, 1>>, <<1, 8, 1>>, <<1, 1, 3>>} : u1 = t[1] /\ u2 = t[2] /\ u3 = t[3]
   \/ /\ Triples /\ j = 0 /\ c1 \in 1..NConn /\ c2 \in 1..NConn /\ c3 \in 1..NConn
      /\ u1 = 1 /\ u2 = 1 /\ u3 = 1
+  \* the full conditional  X if Y else Z  next to every connector, before and after it (always, not only with Triples)
+  \/ /\ j \in 0..4 /\ c1 \in 1..NConn /\ c2 = NConn - 1 /\ c3 = NConn
+     /\ \E t \in UnitVar : u1 = t[1] /\ u2 = t[2] /\ u3 = t[3]
+  \/ /\ j \in 0..4 /\ c1 = NConn - 1 /\ c2 = NConn /\ c3 \in 1..NConn
+     /\ \E t \in UnitVar : u1 = t[1] /\ u2 = t[2] /\ u3 = t[3]
+  \* two assignments of any kind followed by any connector
+  \/ /\ j = 0 /\ c1 \in (Len(InfixOps) + 1)..(Len(InfixOps) + 3) /\ c2 \in (Len(InfixOps) + 1)..(Len(InfixOps) + 3) /\ c3 \in 1..NConn
+     /\ u1 = 1 /\ u2 = 1 /\ u3 = 1
 Next == UNCHANGED vars
 
 Toks ==
